@@ -742,6 +742,40 @@ func (x *Exec) newFrame(fn *ssa.Function, parent *Frame, params, free []*Val, c 
 			}
 		}
 	}
+	if c != nil && parent == nil {
+		// a cut-point assertion watches a call the function makes; when the function no longer makes any
+		// such call the clause says nothing any more and the contract no longer describes the code
+		for _, as := range c.Asserts {
+			if as.Trust {
+				continue
+			}
+			found := false
+			for _, b := range fn.Blocks {
+				for _, in := range b.Instrs {
+					ci, isCall := in.(*ssa.Call)
+					if !isCall {
+						continue
+					}
+					if _, isB := ci.Common().Value.(*ssa.Builtin); isB {
+						continue
+					}
+					cn := "dynamic"
+					if f := ci.Common().StaticCallee(); f != nil {
+						cn = f.String()
+					} else if ci.Common().IsInvoke() {
+						cn = ci.Common().Method.FullName()
+					}
+					cs := strings.TrimSuffix(cn, "[int64]")
+					if strings.HasSuffix(cn, as.Callee) || strings.HasSuffix(cs, as.Callee) {
+						found = true
+					}
+				}
+			}
+			if !found {
+				stale("contract has an 'assert at %s' clause but %s makes no such call", as.Callee, fn)
+			}
+		}
+	}
 	fr.buildNames()
 	return fr
 }
